@@ -87,6 +87,16 @@ class C17(CheckBase):
             nvol = rng.randint(1, 6)
             # keep volumes small enough that boundary-k fits in the 10-bit start sector
             cuts = sorted(rng.sample(range(2, tracks), min(nvol - 1, tracks - 2))) if nvol > 1 else []
+            if len(cuts) >= 1 and rng.chance(0.35):
+                # some volume of exactly one track (the legal minimum)
+                k = rng.below(len(cuts))
+                nxt = cuts[k] + 1
+                if nxt < tracks and nxt not in cuts:
+                    if k + 1 < len(cuts):
+                        cuts[k + 1] = nxt
+                    else:
+                        cuts.append(nxt)
+                    cuts = sorted(set(cuts))[:7]
             starts = [1] + cuts
             ends = cuts + [tracks]
             tv = rng.below(len(starts))
@@ -228,9 +238,21 @@ class C17(CheckBase):
         want_fmt = {'opus': 'Opus DDOS', 'acorn': 'Acorn DFS', 'watford': 'Watford DFS'}[surf.variant]
         g = d[0]['geometry']
         if d[0]['format'] != want_fmt or (g[0], g[2]) != (surf.tracks, surf.spt):
-            out.skip('identified-differently')
-            return
-        m = e2.mount(drive, vol.label)
+            if beyond or ambiguous or eof_at >= 0 or surf.variant != 'opus':
+                # an out-of-bounds entry can legitimately stop the disc from being recognised as intended
+                out.skip('identified-differently')
+                return
+            # a well-formed Opus DDOS disc taken for something else: whatever is now delivered for volume A's
+            # file comes from outside volume A
+            out.probe('well-formed-opus-identified-as-' + str(d[0]['format']))
+            label_override = True
+        else:
+            label_override = False
+        # on an Opus DDOS disc the bare drive number means volume A
+        label = vol.label if not (vol.label == 'A' and case.get('short_by', 0) % 2) else None
+        if label_override:
+            label = None
+        m = e2.mount(drive, label)
         if not m['ok']:
             out.probe('mount-failed')
             out.sig(case['kind'], case['delta'], remclass, eof_at >= 0, 'mount-failed')
@@ -241,7 +263,7 @@ class C17(CheckBase):
         if not idx:
             out.skip('edge-entry-not-listed')
             return
-        b = e2.body(drive, vol.label, idx[0])
+        b = e2.body(drive, label, idx[0])
         out.steps += 1
         verdict = 'error' if not b['ok'] else 'delivered'
         # C17.a: foreign bytes
@@ -341,7 +363,10 @@ class C17(CheckBase):
         sb = ctx.sb
         name = 'img.' + image['ext']
         sb.reset({name: data})
-        argv = ['dfs', '--file', name, 'type', '--binary', ':%d%s.$.EDGE' % (drive, vol.label or '')]
+        lab = vol.label or ''
+        if lab == 'A' and case.get('short_by', 0) % 2:
+            lab = ''
+        argv = ['dfs', '--file', name, 'type', '--binary', ':%d%s.$.EDGE' % (drive, lab)]
         r = ctx.sk.run(sb, ctx.exe('rel', 'dfs'), argv)
         out.add_run(r)
         out.probe('e1-type-binary-spot-checks')
